@@ -608,6 +608,9 @@ func UnmarshalVectorYAML(value *yaml.Node) (*GeneralizedType, error) {
 			if length.Sign() < 0 {
 				return nil, parseError(v, "vector length cannot be negative")
 			}
+			if !length.IsUint64() {
+				return nil, parseError(v, "vector length is too large")
+			}
 			asUint64 := length.Uint64()
 			vector.Length = &asUint64
 		default:
@@ -941,6 +944,9 @@ func (dimension *ArrayDimension) UnmarshalYAML(value *yaml.Node) error {
 		}
 		if length.Sign() < 0 {
 			return parseError(value, "array dimension length cannot be negative")
+		}
+		if !length.IsUint64() {
+			return parseError(value, "array dimension length is too large")
 		}
 		asUnit64 := length.Uint64()
 		dimension.Length = &asUnit64
